@@ -12,6 +12,8 @@ fn main() {
     match raw.get(1).map(|s| s.as_str()) {
         Some("child") => return scen::child(&raw[2], &raw[3], &raw[4]),
         Some("survivor") => return surv::solo(&raw[2], &raw[3], &raw[4]),
+        Some("holder") => return surv::holder(&raw[2], &raw[3], &raw[4]),
+        Some("cleaner1") => return surv::cleaner1(&raw[2], &raw[3]),
         Some("lister") => return c19::lister(&raw[2], &raw[3]),
         Some("observer") => return c07::observer(&raw[2], &raw[3]),
         Some("owner") => return c07::owner(&raw[2], &raw[3], &raw[4]),
